@@ -14,7 +14,8 @@ import servercore_common as sc
 def body(run):
     sc.core_check(
         run, "C35",
-        # quick: 1 probe, callers s2 / null / alias; thorough: 1 probe with all ghost callers + seeded 2-probe scripts
+        # quick: 1 probe per script, 6 life-cycle stages incl. "activation rejected"; thorough: life cycle goes on
+        # after a rejection + seeded 2-probe scripts
         run.pick([("ServerCoreGen_session_q.cfg", None, None)],
                  [("ServerCoreGen_session_t.cfg", None, None), ("ServerCoreGen_session_t2.cfg", 100, 6)]),
         mc_cfgs=[("ServerCore_mc.cfg", "contract: session, id and owner invariants on 2 sessions + null caller")],
@@ -28,6 +29,7 @@ def body(run):
         "'no action' is checked on the subscription / monitored item tables and the node value (privileged snapshot)",
         "a created-but-not-activated session may or may not be closable (left open)",
         "the unsupported-service probe is RegisterNodes",
+        "channel Basic256Sha256/Sign; a rejected activation = client signature with one flipped byte (BadSecurityChecksFailed)",
     ]
 
 
